@@ -82,6 +82,10 @@ impl<S: Stream + Unpin> StreamSource<S> {
                 Some(v) => crate::futures_core::w_yielded::<S>(v),
                 None => crate::futures_core::w_stream_end::<S>(),
             },
+            // (must-call device) a call of the callback leaves the witness "delivered"; the loop invariant below then says
+            // that EVERYTHING the stream handed out during this call has been delivered -- no item and not the final None
+            // is polled out of the stream and then dropped
+            forall|e: Option<S::Item>, m: &mut ()| #[trigger] call_ensures(callback, (e, m), ()) ==> crate::futures_core::w_delivered::<S>(e),
         ensures
             // r = end_of_stream: set only after the stream said Ready(None) (and None was handed to the callback: the call
             // precedes the assignment in the text); otherwise the stream was polled until it said Pending -- every item
@@ -90,6 +94,9 @@ impl<S: Stream + Unpin> StreamSource<S> {
             !r ==> crate::futures_core::w_stream_pending::<S>(),
 //@ entry
         let mut end_of_stream = false;
+        let ghost mut seen: Seq<Option<S::Item>> = Seq::empty();
+//@ before <<if let Some(evt) = evt {>>
+                    proof { seen = seen.push(evt); }
 //@ loop 1
             invariant_except_break
                 !end_of_stream,
@@ -98,6 +105,9 @@ impl<S: Stream + Unpin> StreamSource<S> {
                     Some(v) => crate::futures_core::w_yielded::<S>(v),
                     None => crate::futures_core::w_stream_end::<S>(),
                 },
+                forall|e: Option<S::Item>, m: &mut ()| #[trigger] call_ensures(callback, (e, m), ()) ==> crate::futures_core::w_delivered::<S>(e),
+                // C10 (must-call side): everything polled out of the stream so far has been handed to the callback
+                forall|i: int| 0 <= i < seen.len() ==> crate::futures_core::w_delivered::<S>(#[trigger] seen[i]),
             ensures
                 end_of_stream ==> crate::futures_core::w_stream_end::<S>(),
                 !end_of_stream ==> crate::futures_core::w_stream_pending::<S>(),
